@@ -692,6 +692,9 @@ class SamplingMethod(DirectMethod):
         # Query the discretization method used for polynomial coefficients
         #   interpretation: state ~= coeff * [t^0;t^1;t^2;...]
         #                    t is physical time, but starting at 0 at the beginning of the interval
+        # Only the states are available as polynomials: anything else that moves within the interval cannot be certified
+        if ca.depends_on(c, vertcat(stage.xq, stage.z)):
+            raise Exception("A grid='inf' constraint may not depend on quadrature states or algebraic variables.")
         coeff = stage._method.poly_coeff[k * self.M + l]
 
         # Represent polynomial as a BSpline object (https://gitlab.kuleuven.be/meco-software/rockit/-/blob/v0.1.28/rockit/splines/spline.py#L392)
